@@ -21,7 +21,7 @@ From SK Require Import lib.Tok lib.LGraph model.C03_Model proof.C03_Spec proof.C
                        proof.C03_Link proof.C03_Default proof.C03_Iso
                        proof.C03_Skeleton proof.C03_StripCounts
                        proof.C03_Wiring proof.C03_WiringCount proof.C03_PairIds proof.C03_StripExact proof.C03_StripCor
-                       proof.C03_PairIdsComplete.
+                       proof.C03_PairIdsComplete proof.C03_Wrap.
 Import ListNotations.
 Local Open Scope Z_scope.
 
@@ -487,6 +487,17 @@ Theorem C03_explicit_path : forall (host : hostg) (nodes : list N) (rc : its) (m
      total_charge (fst (its_decompose T')) = total_charge (snd (its_decompose T'))).
 Proof. exact explicit_path. Qed.
 Print Assumptions C03_explicit_path.
+
+(** ** a template handed over as a SynRule OBJECT (SynReactor._wrap_template, after /repo cc40c07): forward the rule is
+    used as it is; backward the prepared rule graph is inverted and not prepared a second time — the rule that is glued
+    is the prepared rule with its two sides swapped, so [C03_backward] applies with the prepared rule graph as [tpl] *)
+Theorem C03_wrap_rule : forall (implicit_temp : bool) (rc : its) (l r : molg),
+  wrap_template_rule false implicit_temp (rc, l, r) = Some (rc, l, r) /\
+  (nodupb (node_ids rc) = true ->
+   wrap_template_rule true implicit_temp (rc, l, r)
+   = Some (invert_template rc, snd (its_decompose rc), fst (its_decompose rc))).
+Proof. exact wrap_rule_spec. Qed.
+Print Assumptions C03_wrap_rule.
 
 (** ** where the hypothesis comes from: a mapping accepted by the matcher's node / edge predicates on the rule's
     reactant side ([match_okb]: the contract of SubgraphSearchEngine, see C06) is a valid match of the rule, provided
